@@ -173,6 +173,48 @@ def wasmAuthorized (h : WasmHandler) (chain sender : String) : Bool :=
 
 def wasmFind? (variant : String) : Option WasmHandler := wasmHandlers.find? fun h => h.variant == variant
 
+/-! ## entry points (C12 scope: every function through which state can be changed from outside) -/
+
+/-- who may call an entry point, as found in the code: `signer` (anyone who signs; acts on what the signer owns), `admin` (esm
+Params.Admin list), `gov` (legacy proposal content, executed by the gov module after a passed vote), `contract` (a CosmWasm
+contract of the per-network allow-list), `ibc` (IBC core, for packets of an authenticated channel), `chain` (block hooks),
+`upgrade` (software-upgrade plan), `none` (present in the source but not wired into the app) -/
+def callerClasses : List String := ["signer", "admin", "gov", "contract", "ibc", "chain", "upgrade", "none"]
+
+def epName (e : EntryPoint) : String := e.module ++ "." ++ e.name
+
+/-- the caller must hold an authority (not just a signature over his own funds) -/
+def epPrivileged (e : EntryPoint) : Bool := e.caller == "admin" || e.caller == "gov" || e.caller == "contract"
+
+/-- the authority guard of a privileged entry point dominates its first write:
+* admin — the admin test is on every route to success of the flattened handler and no write precedes it;
+* gov — the constructor is on app.go's gov router, the content type ends in the keeper function the inventory names and that
+  keeper function has NO other call site in non-test code (the router is the only way in);
+* contract — the chain-id / sender comparison is the first statement of the variant's method, every arm names a listed address. -/
+def entryGuarded (e : EntryPoint) : Bool :=
+  if e.caller == "admin" then
+    e.kind == "msg" && (match find? (epName e) with | some h => guarded 6 true h | none => false)
+  else if e.caller == "gov" then
+    e.kind == "proposal" && e.registered && proposals.any fun p =>
+      p.module == e.module && p.content == e.name && p.routed && p.otherCallers.isEmpty && p.keeperFn == e.target && p.keeperFn != ""
+  else if e.caller == "contract" then
+    e.kind == "wasm" && (match wasmFind? e.name with
+      | some h => h.guardFirst && !h.arms.isEmpty && h.arms.all (fun a => a.idx != 999 && a.addr != "")
+      | none => false)
+  else true
+
+/-- a position-naming entry point is a message whose flattened handler is owner-authorised (or on the reviewed list) -/
+def entryOwnerGuarded (ownerless : List String) (e : EntryPoint) : Bool :=
+  e.kind == "msg" && (match find? (epName e) with
+    | some h => ownerAuthorised h || ownerless.contains (qname h)
+    | none => false)
+
+/-- gov: a legacy proposal content reaches its handler only inside `MsgExecLegacyContent`; the gov message server's first step
+compares the message's authority with the gov module account (cosmos-sdk x/gov/keeper/msg_server.go, trusted, exercised by the
+harness). `handler` is the routed proposal handler. -/
+def execLegacyContent {σ : Type} (authorityIsGov : Bool) (handler : σ → Except GClass σ) (s : σ) : σ × Bool :=
+  applyIfNoError (fun s => if authorityIsGov then handler s else .error .adminOnly) s
+
 /-! ## sweeps -/
 
 /-- the control-flag test makes the sweep skip (or not start for) an app whose breaker is on, and nothing is written before it -/
